@@ -10,8 +10,9 @@ from props import hist
 PROP_FILES = ["Properties/C17.v"]
 HARNESS = ["engine"]
 ASSUMPTIONS = [
-    "database names are plain ASCII identifiers (a delimited identifier containing '/' or '..' creates nested "
-    "directories: outside the generated inputs and recorded as a limitation)",
+    "strings.ToLower is modelled for ASCII letters only: database names with upper-case non-ASCII letters are "
+    "not generated (lower-case non-ASCII names, including pairs equal under Unicode case folding, long names "
+    "and names the code must refuse - path separators, dots - are)",
     "background flushes happen at unknown instants between statements; only table contents are compared, which "
     "a flush does not change",
 ]
@@ -91,7 +92,7 @@ def gen_case(rng, tier):
                 st = g.insert(nrows=rng.choice([1, 2, 5, 9])) if rr < 0.6 else g.update() if rr < 0.8 else g.delete()
             evs.append(("sql_stmt", st))
             evs.append(("read", sorted(g.tables)[:4]))
-            if g.tables and rng.random() < 0.12:
+            if g.tables and cur.isascii() and rng.random() < 0.12:
                 # re-select the current database under another spelling right after a write (names are
                 # case-insensitive), then write again: contents and the ability to accept rows must be intact
                 other = cur.upper() if cur != cur.upper() and rng.random() < 0.7 else cur.capitalize()
